@@ -233,6 +233,35 @@ class Ctx:
             self.cli = d
             return d
 
+    def scratch(self, name=""):
+        d = os.path.join(CACHE, "scratch", self.prop, name)
+        shutil.rmtree(d, ignore_errors=True)
+        os.makedirs(d, exist_ok=True)
+        return d
+
+    def run_cli(self, args, cwd=None, timeout=60, env=None):
+        """the REAL binary built from /repo's current tree. Returns (rc, stdout, stderr, timed_out)."""
+        e = dict(ENV, COLUMNS="400", NO_COLOR="1", TERM="dumb")
+        if env:
+            e.update(env)
+        try:
+            p = subprocess.run([self.cli] + args, cwd=cwd, capture_output=True, text=True, timeout=timeout, env=e)
+            return p.returncode, p.stdout, p.stderr, False
+        except subprocess.TimeoutExpired as ex:
+            return -9, (ex.stdout or b"").decode(errors="replace") if isinstance(ex.stdout, bytes) else (ex.stdout or ""), "", True
+
+    def synfacts(self, paths):
+        rc, out, err = sh([os.path.join(TARGET, "debug", "synfacts")] + list(paths), timeout=600)
+        return json.loads(out) if rc == 0 and out.strip() else {}
+
+    def judge_direct(self, cases_with_impl, tie="E"):
+        """cases whose implementation output was obtained outside the harness (CLI runs): straight to the driver."""
+        triples = [{"op": c["op"], "in": c["in"], "impl": c["impl"]} for c in cases_with_impl]
+        answers = self.run_model(triples)
+        self.ties[tie] = self.ties.get(tie, 0) + len(triples)
+        cases = [{"op": c["op"], "in": c.get("primary", c["in"])} for c in cases_with_impl]
+        self.classify(list(zip(cases, triples, answers)), shrink=False, tie=tie)
+
     def run_impl(self, cases, bin="hk"):
         """cases: list of {"op","in"} -> list of {"op","in","impl"} (same order)."""
         if not cases:
